@@ -1238,6 +1238,48 @@ func c20Spaces(c *fw.Ctx) {
 			}
 		})
 
+	// the RDATA-less representations of RFC 2136 (an RR_Header or an ANY struct carrying the type) next to the typed
+	// struct of the same type: comparisons across the representations neither panic nor depend on the argument order
+	c.Space("rdata-less-forms", "for every registered type: an RR_Header, an ANY struct and the zero typed struct, all with that type, class ANY and the same owner (in two letter cases): IsDuplicate over all ordered pairs returns without panicking, is symmetric, and holds between each representation and its copy; non-trivial: all", true,
+		func(emit func(func(*fw.R))) {
+			for _, t := range regTypes() {
+				if t == dns.TypeOPT {
+					continue
+				}
+				t := t
+				emit(func(r *fw.R) {
+					r.Nontrivial()
+					tn := dns.TypeToString[t]
+					mk := func(owner string) []dns.RR {
+						h := dns.RR_Header{Name: owner, Rrtype: t, Class: dns.ClassANY}
+						hh := h
+						typed := dns.TypeToRR[t]()
+						*typed.Header() = h
+						return []dns.RR{&hh, &dns.ANY{Hdr: h}, typed}
+					}
+					all := append(mk("host.example."), mk("HOST.example.")...)
+					defer func() {
+						if e := recover(); e != nil {
+							r.Fail("rdata-less-forms/panic/"+tn, "IsDuplicate over RDATA-less representations of %s panics: %v", tn, e)
+						}
+					}()
+					for i, a := range all {
+						// (RR_Header implements RR only formally: its copy method returns nil, "just to implement the interface")
+						_, private := a.(*dns.PrivateRR)
+						_, bare := a.(*dns.RR_Header)
+						if !private && !bare && !dns.IsDuplicate(a, dns.Copy(a)) {
+							r.Fail("rdata-less-forms/copy/"+tn, "IsDuplicate(%T of type %s, its copy) is false", a, tn)
+						}
+						for j, b := range all {
+							if dns.IsDuplicate(a, b) != dns.IsDuplicate(b, a) {
+								r.Fail("rdata-less-forms/asymmetric/"+tn, "IsDuplicate(%T #%d, %T #%d) = %v but %v the other way round", a, i, b, j, dns.IsDuplicate(a, b), dns.IsDuplicate(b, a))
+							}
+						}
+					}
+				})
+			}
+		})
+
 	// Dedup groups by text, not by IsDuplicate: records of a registered private type (whose isDuplicate is constant
 	// false, like OPT's) with the same text are one group all the same.
 	c.Space("dedup-private", "all lists of length ≤ 4 over the pool {private-type record P with TTL 5, P with TTL 2, the same type with another payload (TTL 7), an MX record (TTL 3)} (records of a type registered through PrivateHandle never compare as duplicates, Dedup goes by their text): one representative per group in input order, the first record of the group, carrying the group's smallest TTL; non-trivial: the list holds P twice", true,
